@@ -122,6 +122,12 @@ void do_trigger(gsim::Op op)
                        "line when it was destroyed");
         gsim::probe("trip.move_assign_between_live_triggers");
     }
+    if (op.b % 7 == 6) {
+        // self-move-assignment (a compaction loop with dst == src): the object keeps its duty
+        TripWireTrigger& self = *t;
+        *t = std::move(self);
+        gsim::probe("trip.self_move_assignment");
+    }
     switch (op.b % 5) {
         case 0:  // plain destruction
             begun(line);
